@@ -180,10 +180,15 @@ func (m *Migrator) mergeResults(results []MigrationResult, typeConverter *TypeCo
 		return nil, nil, fmt.Errorf("no results to merge")
 	}
 
-	// Validate package names
+	// Validate packages: everything is merged into one file, so all results must come from one
+	// package (two packages may share a name, e.g. two commands called main)
 	pkgName := results[0].Package
 	for _, r := range results[1:] {
-		if r.Package != pkgName {
+		samePackage := r.Package == pkgName
+		if samePackage && r.TypesPackage != nil && results[0].TypesPackage != nil {
+			samePackage = r.TypesPackage.Path() == results[0].TypesPackage.Path()
+		}
+		if !samePackage {
 			return nil, nil, &MergeError{
 				Kind:     MergeErrorPackageMismatch,
 				Message:  fmt.Sprintf("package mismatch: %s vs %s", pkgName, r.Package),
